@@ -1,11 +1,13 @@
-SPECIFICATION MCSpec
-CONSTANT Shapes = {7, 11}
-CONSTANT MaxEntries = 2
-CONSTANT Wide = {}
-CONSTANT MaxLL = 2
-CONSTANT StateShapes = {}
-CONSTANT Odd = TRUE
-CONSTANT LRun = TRUE
-CONSTANT CacheAll = FALSE
+INIT MCInit
+NEXT MCNext
+CONSTANTS
+  Shapes = {7, 11, 14}
+  MaxEntries = 2
+  Wide = {}
+  MaxLL = 2
+  StateShapes = {}
+  Odd = TRUE
+  LRun = TRUE
+  CacheAll = FALSE
 INVARIANT CacheSound
 CHECK_DEADLOCK FALSE
